@@ -84,8 +84,19 @@ package bexpr
 //@     decreases ptrdepth(rtype)
 
 //@ func doMatchIsEmpty(matcher, value) (res, err)
+//@   requires matcher != nil
 //@   ensures[C09] err_false: err != nil ==> !res
 //@   assigns nothing
+
+//@ func derefValue(rvalue) (res, ok)
+//@   ensures[C09] ok ==> kind(res) != K.Ptr
+//@   ensures[C09] ok && valid(rvalue) ==> valid(res) && rtype(res) == tbase(rtype(rvalue))
+//@   ensures[C09] !valid(rvalue) ==> res == rvalue && ok
+//@   assigns nothing
+//@   loop 1:
+//@     invariant valid(old(rvalue)) ==> valid(rvalue) && tbase(rtype(rvalue)) == tbase(rtype(old(rvalue)))
+//@     invariant !valid(old(rvalue)) ==> rvalue == old(rvalue)
+//@     decreases ptrdepth(rtype(rvalue))
 
 //@ func getMatchExprValue(expression, rvalue) (res, err)
 //@   requires expression != nil
@@ -117,7 +128,7 @@ package bexpr
 //@ func doMatchMatches(expression, value) (res, err)
 //@   requires expression != nil && expression.Value != nil
 //@   ensures[C09] err_false: err != nil ==> !res
-//@   assigns grammar.MatchValue.Converted
+//@   assigns nothing
 
 //@ func evaluateNotPresent(ptr, datum) (res)
 //@   assigns nothing
@@ -175,13 +186,13 @@ package bexpr
 //@ func evaluateMatchExpression(expression, datum, opt) (res, err)
 //@   requires wfMatchP(expression) && wfOpts(opt)
 //@   ensures[C09] err_false: err != nil ==> !res
-//@   assigns grammar.MatchValue.Converted
+//@   assigns nothing
 
 //@ func evaluateCollectionExpression(expression, datum, opt) (res, err)
 //@   requires wf(box[*grammar.CollectionExpression](expression)) && wfOpts(opt)
 //@   ensures[C09] err_false: err != nil ==> !res
 //@   decreases 2 * astSize(box[*grammar.CollectionExpression](expression))
-//@   assigns grammar.MatchValue.Converted
+//@   assigns nothing
 //@   loop 1:
 //@     invariant 0 <= i
 
@@ -189,9 +200,21 @@ package bexpr
 //@   requires wf(ast) && wfOpts(opt)
 //@   ensures[C09] err_false: err != nil ==> !res
 //@   decreases 2 * astSize(ast) + 1
-//@   assigns grammar.MatchValue.Converted
+//@   assigns nothing
 
 //@ func Evaluator.Evaluate(eval, datum) (res, err)
 //@   requires eval != nil && wf(eval.ast)
 //@   ensures[C09] err_false: err != nil ==> !res
+//@   assigns nothing
+
+//@ func evaluateCollectionExpression$1(i, j) (less)
+//@   requires keys != nil && 0 <= i && i < len(deref(keys)) && 0 <= j && j < len(deref(keys))
+//@   requires kind(deref(keys)[i]) == K.String && kind(deref(keys)[j]) == K.String
+//@   ensures[C14] less == s.lt(strOf(deref(keys)[i]), strOf(deref(keys)[j]))
+//@   assigns nothing
+
+//@ func compileRegexps(expr) ()
+//@   requires wf(expr)
+//@   ensures wf(expr)
+//@   decreases astSize(expr)
 //@   assigns grammar.MatchValue.Converted
